@@ -43,6 +43,13 @@ def variants(case, rng):
     vs.append({"name": "index_shuffled_ints+perm", "perm": perm[::-1], "index": sh})
     vs.append({"name": "index_strings", "perm": None, "index": [f"r{i:04d}" for i in range(n)]})
     if case["ftype"] == "quant":
+        # shifts that send an observed value exactly to 0 (falsy / sign-sensitive code paths)
+        obs = sorted({v for v in decs(case["X"]) if not (isinstance(v, float) and v != v)})
+        for v0 in rng.sample(obs, min(2, len(obs))):
+            fr = Fraction(v0)
+            if fr.denominator == 1:
+                vs.append({"name": f"affine a=1 b={-int(fr)} (to zero)", "affine": ["1", -int(fr)], "perm": None,
+                           "index": None})
         for a, b in [(rng.choice([2, 4, 0.5, 1024]), rng.randint(-50, 50)), (3, rng.randint(-5, 5)),
                      (10, 0), (1, rng.choice([1000000, -7]))]:
             vs.append({"name": f"affine a={a} b={b}", "affine": [str(Fraction(a)), b], "perm": None, "index": None})
@@ -122,6 +129,58 @@ def fit_variant(case, v):
     return out
 
 
+def tie_case(rng):
+    """categorical feature, 4-6 modalities, two of them with EXACTLY equal target rates but
+    different sizes, rows in random order: tie-breaking must not depend on first appearance"""
+    m = rng.randint(4, 6)
+    names = rng.sample(["a", "b", "c", "d", "e", "g", "h"], m)
+    k = rng.choice([8, 12, 16, 20])
+    sizes = [k * rng.randint(2, 6) for _ in range(m)]
+    ones = [rng.randint(1, s - 1) for s in sizes]
+    i, j = rng.sample(range(m), 2)
+    num, den = rng.choice([(1, 2), (1, 4), (3, 4), (1, 3)])
+    sizes[i], sizes[j] = den * rng.randint(4, 12), den * rng.randint(13, 30)
+    ones[i], ones[j] = sizes[i] * num // den, sizes[j] * num // den
+    col, y = [], []
+    for nme, s_, o in zip(names, sizes, ones):
+        col += [nme] * s_
+        y += [1] * o + [0] * (s_ - o)
+    perm = list(range(len(col)))
+    rng.shuffle(perm)
+    col, y = [col[t] for t in perm], [y[t] for t in perm]
+    n = len(col)
+    return {"carver": "binary", "sort_by": rng.choice(["tschuprowt", "cramerv"]), "ftype": "categ",
+            "min_freq": 0.05, "max_n_mod": rng.randint(2, 4), "dropna": True, "output_dtype": "float",
+            "X": encs(col), "y": y, "kind": "categ_ties", "order": None, "Xdev": None, "ydev": None,
+            "min_freq_mod": rng.choice([None, 0.2, 0.3, (sizes[i] + sizes[j]) / n])}
+
+
+def rare_bucket_case(rng):
+    """discrete quantitative feature with one over-represented value and rare neighbours, so that the
+    rare-bucket pass of QuantitativeDiscretizer merges quantiles (leader = max of the merged run)"""
+    lo = rng.choice([1, 2, 5, -4])
+    vals = list(range(lo, lo + rng.randint(5, 8)))
+    n = rng.choice([200, 300, 400])
+    w = [rng.choice([0.01, 0.02, 0.2, 0.3, 0.4]) for _ in vals]
+    w[rng.randrange(len(w))] = 0.4
+    tot = sum(w)
+    col, y = [], []
+    for v, wi in zip(vals, w):
+        c = max(1, int(n * wi / tot))
+        p = rng.random()
+        col += [float(v)] * c
+        y += [1 if rng.random() < p else 0 for _ in range(c)]
+    if sum(y) in (0, len(y)):
+        y[0] = 1 - y[0]
+    perm = list(range(len(col)))
+    rng.shuffle(perm)
+    col, y = [col[t] for t in perm], [y[t] for t in perm]
+    return {"carver": "binary", "sort_by": rng.choice(["tschuprowt", "cramerv"]), "ftype": "quant",
+            "min_freq": rng.choice([0.1, 0.2]), "max_n_mod": rng.randint(3, 6), "dropna": True,
+            "output_dtype": "float", "X": encs(col), "y": y, "kind": "rare_buckets", "order": None,
+            "Xdev": None, "ydev": None, "min_freq_mod": None}
+
+
 def partition(labels):
     groups = {}
     for i, l in enumerate(labels):
@@ -145,10 +204,14 @@ class C11(Prop):
                    "renamings keep the code-point order of the categories"]
 
     def generate(self, rng, tier):
-        n = 60 if tier == "quick" else 1200
+        n = 100 if tier == "quick" else 1600
         cases = []
-        for _ in range(n):
+        for k in range(n):
             c = gen_case(rng, kind=rng.choice(["plain", "plain", "tied_rates", "dev", "boundary"]))
+            if k % 4 == 0:
+                c = tie_case(rng)
+            elif k % 4 == 1:
+                c = rare_bucket_case(rng)
             c["variants"] = variants(c, rng)
             cases.append(c)
         return cases
